@@ -525,6 +525,48 @@ func runC14(c *core.Ctx) {
 			}
 		}
 	}
+	// large input (1 MiB, beyond 16-bit and 20-bit sizes), nil and empty arguments
+	{
+		big := make([]byte, 1<<20+3)
+		for i := range big {
+			big[i] = byte(i*31 + i>>11)
+		}
+		t6 := make(trinary.Trits, b1t6.EncodedLen(len(big)))
+		t8 := make(trinary.Trits, b1t8.EncodedLen(len(big)))
+		n6, n8 := b1t6.Encode(t6, big), b1t8.Encode(t8, big)
+		d6, d8 := make([]byte, len(big)), make([]byte, len(big))
+		m6, e6 := b1t6.Decode(d6, t6)
+		m8, e8 := b1t8.Decode(d8, t8)
+		c.Eval(4)
+		if n6 != 6*len(big) || n8 != 8*len(big) || e6 != nil || e8 != nil || m6 != len(big) || m8 != len(big) || !bytes.Equal(d6, big) || !bytes.Equal(d8, big) {
+			c.Violate("C14/environment/large-input", fmt.Sprintf("1 MiB round trip: n6=%d n8=%d m6=%d m8=%d e6=%v e8=%v", n6, n8, m6, m8, e6, e8), nil, "", nil)
+		}
+		for i := 0; i < len(big); i += 4099 { // spot the reference on the big encoding
+			w := refB1T6Enc(big[i])
+			if !bytes.Equal(int8bytes(t6[6*i:6*i+6]), int8bytes(w[:])) {
+				c.Violate("C14/environment/large-input", fmt.Sprintf("byte %d of a 1 MiB input encoded wrongly", i), i, "", nil)
+				break
+			}
+		}
+		ty := b1t6.EncodeToTrytes(big[:70000])
+		if back, err := b1t6.DecodeTrytes(ty); err != nil || !bytes.Equal(back, big[:70000]) {
+			c.Violate("C14/environment/large-input", "70000-byte tryte round trip fails", nil, "", nil)
+		}
+		for _, f := range []func() (int, error){
+			func() (int, error) { return b1t6.Decode(nil, nil) }, func() (int, error) { return b1t6.Decode([]byte{}, trinary.Trits{}) },
+			func() (int, error) { return b1t8.Decode(nil, nil) }, func() (int, error) { return b1t8.Decode([]byte{}, trinary.Trits{}) },
+			func() (int, error) { return b1t6.Encode(nil, nil), nil }, func() (int, error) { return b1t8.Encode(trinary.Trits{}, []byte{}), nil },
+		} {
+			var n int
+			var err error
+			if p := core.Catch(func() { n, err = f() }); p != nil || n != 0 || err != nil {
+				c.Violate("C14/environment/nil-or-empty", fmt.Sprintf("nil/empty arguments: n=%d err=%v panic=%v", n, err, p), nil, "", nil)
+			}
+		}
+		if d, err := b1t6.DecodeTrytes(""); err != nil || len(d) != 0 {
+			c.Violate("C14/environment/nil-or-empty", "DecodeTrytes(\"\")", nil, "", nil)
+		}
+	}
 	// long inputs (12 and 16 groups, beyond any 64-trit block) with one and two faults at every pair of positions
 	for _, codec := range []string{"b1t8", "b1t6"} {
 		group, ngroups := 8, 12
